@@ -346,10 +346,12 @@ C02_Step(s, e) ==
       /\ e.args.quiet = "true"
            \/ Masked("F-ann-vs-setting", "C02", \E d \in EDSs(s) : \E n \in NodeNames(s) : NodeOf(s, n).override \in {"r1", "r2", "r3"} /\ ValidSettingFor(s, d, n) # {})
            \/ Masked("F-narrowing", "C02", \E d \in EDSs(s) : d.hasCanary /\ HasRS(s, d.canaryRS) /\ \E n \in NodeNames(s) : ~Fits(s, n, RSOf(s, d.canaryRS).tmpl) /\ PodsOn(s, d, n) # {})
-      /\ e.args.quiet = "true" => \A d \in EDSs(e.state) : d.defaulted => Converged(e.state, d)
+      \* a reconcile that keeps reporting an error (e.g. not enough valid canary nodes) is not a fixpoint of the
+      \* premise "API calls succeed ..."; whether that error is justified is C15's business
+      /\ (e.args.quiet = "true" /\ e.args.errs = "0") => \A d \in EDSs(e.state) : d.defaulted => Converged(e.state, d)
 
 C14_Quiescent(s, e) ==
-    (e.ev = "tailEnd" /\ e.args.quiet = "true") =>
+    (e.ev = "tailEnd" /\ e.args.quiet = "true" /\ e.args.errs = "0") =>
       \A d \in EDSs(e.state) : d.defaulted => (NT(<<"C14", "quiescent">>) /\ QuiescentStatus(e.state, d))
 
 -----------------------------------------------------------------------------
@@ -448,26 +450,36 @@ C14_Step(s, e) == C14_EDS(s, e) /\ C14_ERS(s, e) /\ C14_Quiescent(s, e)
 -----------------------------------------------------------------------------
 (* C15 - canary nodes valid, distinct, stable, as many as requested *)
 
+C15_Wants(s, d, active, canary) ==
+    LET fitsOf(t) == Cardinality({ n \in NodeNames(s) : Fits(s, n, t) })
+        bases == { fitsOf(x.tmpl) : x \in { y \in OwnRS(s, d) : y.id \in {active, canary} } } \cup { d.desired }
+    IN { Resolve(d.strat.cReplicas, b) : b \in bases }
+
 C15_Step(s, e) ==
     (IsEDS(s, e) /\ HasEDS(e.state, e.key)) =>
       LET d == EDSOf(s, e.key)  d2 == EDSOf(e.state, e.key) IN
-        (d.strat.canary /\ d2.hasCanary /\ HasRS(s, d2.canaryRS) /\ ~d.strat.cReplicas.bad) =>
-          LET u     == RSOf(s, d2.canaryRS)
-              old   == CNodes(d)
-              new   == CNodes(d2)
-              Valid(n) == HasNode(s, n) /\ NodeOf(s, n).csel /\ Fits(s, n, u.tmpl)
-              fitsOf(t) == Cardinality({ n \in NodeNames(s) : Fits(s, n, t) })
-              bases == { fitsOf(x.tmpl) : x \in { y \in OwnRS(s, d) : y.id \in {d2.active, d2.canaryRS} } } \cup { d.desired }
-              wants == { Resolve(d.strat.cReplicas, b) : b \in bases }
-          IN /\ NT(<<"C15", Cardinality(old), Cardinality(new)>>)
-             /\ Cardinality(new) = Len(d2.cNodes)                         \* distinct
-             /\ \A n \in new \ old : Valid(n)                             \* additions are valid
-             /\ \A n \in new : Valid(n)
-                  \/ Masked("F-stale-nodes", "C15", n \in old)
-             /\ \A n \in old : (Valid(n) /\ (d.hasCanary /\ d.canaryRS = d2.canaryRS)) => n \in new   \* stable
-             /\ \/ e.res.err
-                \/ Cardinality(new) \in wants
-                \/ Masked("F-stale-nodes", "C15", Cardinality(new) = Cardinality(old) /\ \E n \in old : ~Valid(n))
+        /\ (d.strat.canary /\ d2.hasCanary /\ HasRS(s, d2.canaryRS) /\ ~d.strat.cReplicas.bad) =>
+              LET u     == RSOf(s, d2.canaryRS)
+                  old   == CNodes(d)
+                  new   == CNodes(d2)
+                  Valid(n) == HasNode(s, n) /\ (d.strat.cSelector => NodeOf(s, n).csel) /\ Fits(s, n, u.tmpl)
+                  wants == C15_Wants(s, d, d2.active, d2.canaryRS)
+              IN /\ NT(<<"C15", Cardinality(old), Cardinality(new)>>)
+                 /\ Cardinality(new) = Len(d2.cNodes)                         \* distinct
+                 /\ \A n \in new \ old : Valid(n)                             \* additions are valid
+                 /\ \A n \in new : Valid(n)
+                      \/ Masked("F-stale-nodes", "C15", n \in old)
+                 /\ \A n \in old : (Valid(n) /\ (d.hasCanary /\ d.canaryRS = d2.canaryRS)) => n \in new   \* stable
+                 /\ \/ e.res.err
+                    \/ Cardinality(new) \in wants
+                    \/ Masked("F-stale-nodes", "C15", Cardinality(new) = Cardinality(old) /\ \E n \in old : ~Valid(n))
+        \* "not enough nodes" is reported only when it is true
+        /\ (e.res.errKind = "nodes" /\ d.strat.canary /\ Cardinality(UpToDateRS(s, d)) = 1 /\ ~d.strat.cReplicas.bad) =>
+              LET u == CHOOSE x \in UpToDateRS(s, d) : TRUE
+                  Valid(n) == HasNode(s, n) /\ (d.strat.cSelector => NodeOf(s, n).csel) /\ Fits(s, n, u.tmpl)
+                  wants == C15_Wants(s, d, d.active, u.id)
+              IN /\ NT(<<"C15", "err", Cardinality({ n \in NodeNames(s) : Valid(n) })>>)
+                 /\ Cardinality({ n \in NodeNames(s) : Valid(n) }) < (CHOOSE w \in wants : \A w2 \in wants : w >= w2)
 
 -----------------------------------------------------------------------------
 (* C16 - no accepted spec crashes the controller (history part: monitored on every step) *)
